@@ -16,7 +16,11 @@ import (
 )
 
 type Scenario struct {
-	Landing  string `json:"landing"`  // idle|queue|negotiation|final|eval|fromHandler|fromFinal
+	// idle|queue|queueLong|negotiation|final|eval|evalQueued|fromHandler|fromFinal|
+	// subsCollect (the queue goroutine is inside processSubscriptions of an
+	// accepted transition: the matched bindings are out of the indexes, their
+	// channels not closed yet)
+	Landing  string `json:"landing"`
 	How      string `json:"how"`      // dispose|force|ctx|twice|disposeThenForce
 	Handlers bool   `json:"handlers"` // machine has handlers bound
 	Subs     bool   `json:"subs"`     // outstanding subscriptions / contexts
@@ -43,6 +47,9 @@ type EndEv struct {
 	Completed     bool           `json:"completed"`     // WhenDisposed closed within the bound
 	IsDisposed    bool           `json:"isDisposed"`
 	Open          []string       `json:"open"`          // subscription channels still open
+	// channels of waiters whose condition was met by the transition in flight
+	// when the disposal landed (landing subsCollect) and which are still open
+	OpenMatched   []string       `json:"openMatched"`
 	CtxAlive      []string       `json:"ctxAlive"`      // state contexts not cancelled
 	MachCtxAlive  bool           `json:"machCtxAlive"`
 	DisposeRuns   []int          `json:"disposeRuns"`   // runs per registered dispose handler
@@ -171,6 +178,36 @@ func Run(sc Scenario) (lines []any) {
 		ctxs["StateCtx(B)"] = m.NewStateCtx("B")
 		ctxs["StateCtx(W)"] = m.NewStateCtx("W")
 	}
+	// landing subsCollect: waiters the workload's transition (Add A) satisfies,
+	// and a WhenQuery predicate as the landing point - it is evaluated by the
+	// queue goroutine in ProcessWhenQuery, i.e. after ProcessWhen / WhenTime /
+	// WhenQueue (and the earlier WhenQuery bindings) were collected, before
+	// any collected channel is closed
+	matched := map[string]<-chan struct{}{}
+	var gateArmed atomic.Bool
+	var gateOnce sync.Once
+	if sc.Landing == "subsCollect" {
+		if sc.Subs {
+			matched["When(A)"] = m.When1("A", nil)
+			matched["WhenTime(A,1)"] = m.WhenTime1("A", 1, nil)
+			matched["WhenTicks(A,1)"] = m.WhenTicks("A", 1, nil)
+			matched["WhenQueue(+1)"] = m.WhenQueue(am.Result(m.QueueTick() + 1))
+			matched["WhenQuery(A)"] = m.WhenQuery(func(c am.Clock) bool { return c["A"]%2 == 1 }, nil)
+		}
+		chans["WhenQuery(gate)"] = m.WhenQuery(func(c am.Clock) bool {
+			if gateArmed.Load() {
+				gateOnce.Do(func() {
+					add(map[string]any{"ev": "q", "point": "q.collected"})
+					inHandler <- struct{}{}
+					select {
+					case <-release:
+					case <-time.After(3 * time.Second):
+					}
+				})
+			}
+			return false
+		}, nil)
+	}
 	chans["WhenDisposed"] = m.WhenDisposed()
 	machCtx := m.Context()
 	runs := []*int32{new(int32), new(int32)}
@@ -233,6 +270,27 @@ func Run(sc Scenario) (lines []any) {
 		how()
 		time.Sleep(30 * time.Millisecond)
 		close(release)
+	case "subsCollect":
+		gateArmed.Store(true)
+		startWork(func() {
+			m.Add1("A", nil)
+			// back from processQueue: the closing loop of processSubscriptions ran
+			add(map[string]any{"ev": "q", "point": "q.closed"})
+		})
+		select {
+		case <-inHandler:
+		case <-time.After(2 * time.Second):
+		}
+		// Dispose() waits for the queue (WhenQueueEnds needs the subscriptions
+		// lock the predicate runs under): do not wait for it here
+		howDone := make(chan struct{})
+		go func() { defer close(howDone); how() }()
+		select {
+		case <-howDone:
+		case <-time.After(300 * time.Millisecond):
+		}
+		time.Sleep(30 * time.Millisecond)
+		close(release)
 	case "eval":
 		evalIn := make(chan struct{})
 		startWork(func() {
@@ -281,7 +339,7 @@ func Run(sc Scenario) (lines []any) {
 		startWork(func() { m.Add1("A", nil) })
 	}
 
-	end := EndEv{Ev: "dend", Open: []string{}, CtxAlive: []string{}, Post: []PostCall{}}
+	end := EndEv{Ev: "dend", Open: []string{}, OpenMatched: []string{}, CtxAlive: []string{}, Post: []PostCall{}}
 	select {
 	case <-m.WhenDisposed():
 		end.Completed = true
@@ -302,6 +360,13 @@ func Run(sc Scenario) (lines []any) {
 			end.Open = append(end.Open, k)
 		}
 	}
+	for k, ch := range matched {
+		select {
+		case <-ch:
+		default:
+			end.OpenMatched = append(end.OpenMatched, k)
+		}
+	}
 	for k, c := range ctxs {
 		if c.Err() == nil {
 			end.CtxAlive = append(end.CtxAlive, k)
@@ -320,6 +385,7 @@ func Run(sc Scenario) (lines []any) {
 		end.Post = PostCalls(m)
 	}
 	sortStrings(end.Open)
+	sortStrings(end.OpenMatched)
 	sortStrings(end.CtxAlive)
 	add(end)
 	return
